@@ -266,7 +266,7 @@ fn writer_case(ctx: &mut Ctx) {
         // start from a writer whose length sits just below a power of two (capacity boundaries:
         // the next few appends cross 2^k), or that already holds a lot (offsets beyond 2^16)
         let k = if miri { ctx.rng.range(3, 17) } else { ctx.rng.range(3, 18) } as u32;
-        let n = if ctx.rng.chance(3, 4) { (1usize << k) - ctx.rng.range(0, 9) as usize } else { *ctx.rng.pick(&[255usize, 256, 65_535, 65_536, 65_537, 100_000]) };
+        let n = if ctx.rng.chance(3, 4) { (1usize << k).saturating_sub(ctx.rng.range(0, 9) as usize) } else { *ctx.rng.pick(&[255usize, 256, 65_535, 65_536, 65_537, 100_000]) };
         let n = if miri { n.min(1 << 17) } else { n };
         let fill = ctx.rng.bytes(n);
         w.write_bytes(&fill);
